@@ -179,6 +179,7 @@ def check(run, prog, tier):
                     ("quantarhei.qm.propagators.dmevolution.ReducedDensityMatrixEvolution", "ReducedDensityMatrix")):
         handout.check_nearest(run, "C02-K", prog, prog.cls(q), "TimeAxis", ctor,
                               "the state read at a stored time is that of the previous step and deviates from the exact exponential")
+    handout.check_axis_lookup(run, "C02-K", prog)
     run.rule("C02-M", "the rotating frame is undone at the times of the time axis: every phase factor of a conversion from or to "
                       "the frame takes its time from the axis' own points (which include its start)", minimum=3)
     rule_M(run, prog)
